@@ -54,18 +54,31 @@ func VerifyFunction(w *World, fc *FuncContract) (res *FuncResult) {
 	// pass 1: discover heap keys written inside loops
 	d := newExec(w, fn, fc)
 	d.discovery = true
-	d.H.onWrite = func(key string) {
+	d.H.onWrite = func(key string, ref *Term) {
+		atTarget := false
+		if ref != nil && key != "*" {
+			for _, tr := range d.targetRefs(key) {
+				if tr.S == ref.S {
+					atTarget = true
+				}
+			}
+		}
 		for _, id := range d.curLoops {
 			if d.loopKeys[id] == nil {
 				d.loopKeys[id] = map[string]bool{}
+				d.loopLocal[id] = map[string]bool{}
 			}
 			d.loopKeys[id][key] = true
+			if !atTarget {
+				d.loopLocal[id][key] = true
+			}
 		}
 	}
 	d.runTop()
 	// pass 2
 	x := newExec(w, fn, fc)
 	x.loopKeys = d.loopKeys
+	x.loopLocal = d.loopLocal
 	x.runTop()
 	res.Obls = x.obls
 	for n := range x.notes {
@@ -77,7 +90,8 @@ func VerifyFunction(w *World, fc *FuncContract) (res *FuncResult) {
 
 func newExec(w *World, fn *ssa.Function, fc *FuncContract) *Exec {
 	x := &Exec{W: w, S: NewScript(), fn: fn, fc: fc, loopKeys: map[string]map[string]bool{}, notes: map[string]bool{},
-		strLits: map[string]Term{}, labelCount: map[string]int{}, inlineMax: 8, funcsSeen: map[string]bool{}}
+		strLits: map[string]Term{}, labelCount: map[string]int{}, inlineMax: 8, funcsSeen: map[string]bool{},
+		localRefs: map[string]bool{}, loopLocal: map[string]map[string]bool{}}
 	x.H = NewHeapEnv(x.S)
 	return x
 }
@@ -128,6 +142,25 @@ func (x *Exec) runTop() {
 		t := x.S.Define("allocbound", Resize(v.One(), 64, false))
 		x.allocBound = &t
 	}
+	// closure of the entry heap below pointer parameters: references stored in their fields pre-exist
+	for i, p := range fn.Params {
+		if pt, ok := p.Type().Underlying().(*types.Pointer); ok {
+			if _, isStruct := pt.Elem().Underlying().(*types.Struct); isStruct {
+				vals := x.H.Load(x.entry, objectLoc(f.params[i].T[0], pt.Elem()))
+				for _, fact := range x.wfFacts(pt.Elem(), vals, next0) {
+					x.S.Assert(Implies(Not(Eq(f.params[i].T[0], IntConst(0))), fact))
+				}
+			}
+		}
+	}
+	if fc.HasModifies && !fc.ModAll {
+		var err error
+		x.modTargets, err = ctx.evalModTargets(fc.Modifies)
+		if err != nil {
+			abort("modifies: %v", err)
+		}
+		x.explicitMod = true
+	}
 	if !x.discovery {
 		// vacuity guard: the assumptions at entry must be satisfiable
 		ob := &Obligation{Class: "VAC", Func: disp, Text: "preconditions are satisfiable", PC: True, Goal: True, script: x.S, mark: x.S.Mark(), Expect: "sat"}
@@ -142,14 +175,7 @@ func (x *Exec) runTop() {
 		x.note("%s has no reachable return", disp)
 	}
 	// postconditions, frame
-	var modTargets []modTarget
-	if fc.HasModifies && !fc.ModAll {
-		var err error
-		modTargets, err = ctx.evalModTargets(fc.Modifies)
-		if err != nil {
-			abort("modifies: %v", err)
-		}
-	}
+	modTargets := x.modTargets
 	for ri, r := range f.rets {
 		pctx := f.contractCtx(r.heap)
 		pctx.Lookup = nil
@@ -167,6 +193,60 @@ func (x *Exec) runTop() {
 	}
 }
 
+// targetRefs lists the references at which heap key k may be modified according to the modifies clause.
+func (x *Exec) targetRefs(k string) []Term {
+	var out []Term
+	for _, mt := range x.modTargets {
+		if mt.wholeArr {
+			ks, _ := elemKeys(mt.elem)
+			for _, kk := range ks {
+				if kk == k {
+					out = append(out, mt.arrRef)
+				}
+			}
+			continue
+		}
+		for _, kk := range locKeys(mt.loc) {
+			if kk == k {
+				out = append(out, mt.loc.Ref)
+			}
+		}
+	}
+	return out
+}
+
+// locKeys lists the heap keys a location of any type occupies.
+func locKeys(l *Loc) []string {
+	if st, ok := l.T.Underlying().(*types.Struct); ok {
+		var out []string
+		for i := 0; i < st.NumFields(); i++ {
+			out = append(out, locKeys(l.Field(i))...)
+		}
+		return out
+	}
+	var out []string
+	for _, lf := range leaves(l.T) {
+		out = append(out, l.Prefix+lf.Path)
+	}
+	return out
+}
+
+// frameGoal: pre-existing locations of key k outside the modifies clause agree in cur and ref.
+func (x *Exec) frameGoal(class, disp, label, k string, pc Term, cur, ref Term) {
+	if cur.S == ref.S {
+		return
+	}
+	skn := x.S.freshName("frame_r")
+	sk := Term{skn, SInt}
+	extra := []string{fmt.Sprintf("(declare-const %s Int)", skn)}
+	conds := []Term{IntLt(IntConst(0), sk), IntLt(sk, x.entry.next)}
+	for _, tr := range x.targetRefs(k) {
+		conds = append(conds, Not(Eq(sk, tr)))
+	}
+	goal := Implies(And(conds...), Eq(Select(cur, sk), Select(ref, sk)))
+	x.addObligation(class, disp, label, "locations of "+k+" outside the modifies clause are unchanged", pc, goal, extra)
+}
+
 // frameObligations: every pre-existing location outside the modifies clause is unchanged at return.
 func (x *Exec) frameObligations(disp string, ri int, r retPoint, targets []modTarget) {
 	var keys []string
@@ -176,35 +256,7 @@ func (x *Exec) frameObligations(disp string, ri int, r retPoint, targets []modTa
 	sort.Strings(keys)
 	for _, k := range keys {
 		sortK := x.H.sorts[k]
-		cur := x.H.Get(r.heap, k, sortK)
-		ent := x.H.Get(x.entry, k, sortK)
-		if cur.S == ent.S {
-			continue
-		}
-		skn := x.S.freshName("frame_r")
-		sk := Term{skn, SInt}
-		extra := []string{fmt.Sprintf("(declare-const %s Int)", skn)}
-		conds := []Term{IntLt(IntConst(0), sk), IntLt(sk, x.entry.next)}
-		excluded := false
-		for _, mt := range targets {
-			if mt.wholeArr {
-				ks, _ := elemKeys(mt.elem)
-				for _, kk := range ks {
-					if kk == k {
-						conds = append(conds, Not(Eq(sk, mt.arrRef)))
-					}
-				}
-				continue
-			}
-			for _, lf := range leaves(mt.loc.T) {
-				if mt.loc.Prefix+lf.Path == k {
-					conds = append(conds, Not(Eq(sk, mt.loc.Ref)))
-				}
-			}
-		}
-		_ = excluded
-		goal := Implies(And(conds...), Eq(Select(cur, sk), Select(ent, sk)))
-		x.addObligation("FRAME", disp, "unchanged:"+k, "locations of "+k+" outside the modifies clause are unchanged", r.pc, goal, extra)
+		x.frameGoal("FRAME", disp, "unchanged:"+k, k, r.pc, x.H.Get(r.heap, k, sortK), x.H.Get(x.entry, k, sortK))
 	}
 }
 
